@@ -275,7 +275,7 @@ func init() {
 		},
 		Subs: []h.Sub{
 			{
-				Name: "clone-equal-bound", Count: h.Fixed(20000, 1000000),
+				Name: "clone-equal-bound", Count: h.Fixed(20000, 15000000),
 				Run: func(c *h.Ctx, idx uint64, r *h.Rand) {
 					o := []*gen.GeomOpts{optsAll, optsFin, optsOrd}[r.Intn(3)]
 					g := properBounds(o.Geometry(r, r.Intn(5)))
@@ -387,7 +387,7 @@ func init() {
 				},
 			},
 			{
-				Name: "kind-pairs", Count: h.Fixed(2000, 100000),
+				Name: "kind-pairs", Count: h.Fixed(2000, 1000000),
 				Run: func(c *h.Ctx, idx uint64, r *h.Rand) {
 					// all 10 x 10 kind pairs (nine kinds + nil interface) over a shared pool of points
 					o := &gen.GeomOpts{Float: func(r *h.Rand) float64 { return float64(r.Intn(3)) }, NilSlices: true, Empty: true, EmptyParts: true, RingBound: true, MaxLen: 2}
@@ -414,7 +414,7 @@ func init() {
 				},
 			},
 			{
-				Name: "bound-lattice", Count: h.Fixed(60000, 3000000),
+				Name: "bound-lattice", Count: h.Fixed(60000, 40000000),
 				Run: func(c *h.Ctx, idx uint64, r *h.Rand) {
 					a, b, d := c06box(r), c06box(r), c06box(r)
 					if r.P(1, 6) { // touching: b sits exactly on one of a's edges
@@ -482,7 +482,7 @@ func init() {
 				},
 			},
 			{
-				Name: "reverse-orientation", Count: h.Fixed(20000, 1000000),
+				Name: "reverse-orientation", Count: h.Fixed(20000, 15000000),
 				Run: func(c *h.Ctx, idx uint64, r *h.Rand) {
 					n := int(idx % 14)
 					if idx%5 == 0 {
